@@ -6,6 +6,8 @@ with real construction through the public API (``vf.dslx.build``): oracle-valid 
 lists the expected names / kinds in order; oracle-invalid => ``dsl.GrammarError`` (no other exception, no success).
 ``enumerate_extra`` applies *every* mutation site of a hand-written pool of small statements (small-scope exhaustion).
 """
+import json
+
 from forml.io import dsl
 
 from vf.core.hyp import Campaign, HarnessError, st
@@ -35,14 +37,14 @@ ASSUMPTIONS = [
     'counted as masked, the crash itself being reported from the valid side',
 ]
 FLOORS = {
-    'valid': 0.35,
-    'invalid': 0.35,
-    'shape:join': 0.30,
-    'shape:two-table-pred': 0.20,
-    'shape:groupby': 0.15,
-    'shape:nested': 0.10,
-    'shape:set': 0.10,
-    'shape:self-join': 0.10,
+    'valid': 0.2,
+    'invalid': 0.25,
+    'shape:join': 0.22,
+    'shape:two-table-pred': 0.15,
+    'shape:groupby': 0.11,
+    'shape:nested': 0.07,
+    'shape:set': 0.07,
+    'shape:self-join': 0.07,
     'rule:set:schema': 0.005,
     'rule:group:select': 0.01,
 }
@@ -208,9 +210,61 @@ def _pool():
     ]
 
 
+# ---- operand-kind compatibility over compound kinds (the generator catalog holds primitive kinds only) ---------------------
+_KIND_SPECS = [
+    'int', 'float', 'str', 'bool', 'date', 'timestamp',
+    ['array', 'int'], ['array', 'str'], ['array', ['array', 'int']],
+    ['map', 'str', 'int'], ['map', 'str', 'str'], ['map', 'int', 'int'],
+    ['struct', [['a', 'int']]], ['struct', [['a', 'str']]], ['struct', [['b', 'int']]],
+]
+_CMP = {'eq': '__eq__', 'ne': '__ne__', 'lt': '__lt__', 'le': '__le__', 'gt': '__gt__', 'ge': '__ge__'}
+
+
+def _mk_kind(spec):
+    if isinstance(spec, str):
+        return {'int': dsl.Integer, 'float': dsl.Float, 'str': dsl.String, 'bool': dsl.Boolean, 'date': dsl.Date, 'timestamp': dsl.Timestamp}[spec]()
+    if spec[0] == 'array':
+        return dsl.Array(_mk_kind(spec[1]))
+    if spec[0] == 'map':
+        return dsl.Map(_mk_kind(spec[1]), _mk_kind(spec[2]))
+    return dsl.Struct(**{n: _mk_kind(k) for n, k in spec[1]})
+
+
+def check_kind_pair(ctx, spec):
+    """spec = {'l': kind spec, 'r': kind spec, 'op': cmp}: a comparison is constructible iff both operands are numeric or
+    their kinds are structurally equal (date vs timestamp is not judged: the documented rule is silent about sub-kinds)."""
+    left, right, op = spec['l'], spec['r'], spec['op']
+    ctx.case(spec, nontrivial=not (isinstance(left, str) and isinstance(right, str)), classes=['kind-pair'])
+    if {json.dumps(left), json.dumps(right)} == {'"date"', '"timestamp"'}:
+        ctx.mask('kind-pair:date-vs-timestamp-not-judged')
+        return
+    numeric = lambda k: k in ('int', 'float')
+    valid = (numeric(left) and numeric(right)) or left == right
+    table = dsl.Schema.from_fields(dsl.Field(_mk_kind(left), name='l'), dsl.Field(_mk_kind(right), name='r'), dsl.Field(dsl.Integer(), name='k'))
+    tab = dsl.Table(table)
+    try:
+        cond = getattr(tab.l, _CMP[op])(tab.r)
+        tab.select(tab.k).where(cond)
+        outcome = 'ok'
+    except dsl.GrammarError:
+        outcome = 'grammar-error'
+    except Exception as exc:  # pylint: disable=broad-except
+        ctx.fail_exc(spec, 'kind-pair-raises', exc)
+        return
+    if valid and outcome != 'ok':
+        ctx.fail(spec, 'verdict', 'rejected-valid', f'{left} {op} {right}', ['cmp:kinds', 'compound'])
+    elif not valid and outcome == 'ok':
+        ctx.fail(spec, 'verdict', 'accepted-invalid', f'{left} {op} {right}', ['cmp:kinds', 'compound'])
+
+
 def enumerate_extra(ctx, shard, nshards):
     if shard != 0:
         return
+    ctx.campaign = 'kind-pair'
+    for left in _KIND_SPECS:
+        for right in _KIND_SPECS:
+            for op in _CMP:
+                check_kind_pair(ctx, {'l': left, 'r': right, 'op': op})
     ctx.campaign = 'stmt'
     for base in _pool():
         if wellformed.check(base) is not None:
